@@ -167,16 +167,16 @@ were transmitted; a successful handshake has transmitted all of them. -/
 theorem establish_order (p0 : σ) (c0 : Client) :
     ∃ n1 n2 n3 n4, n1 ≤ cfg.maxRetries + 1 ∧ n2 ≤ cfg.maxRetries + 1 ∧ n3 ≤ cfg.maxRetries + 1 ∧
       n4 ≤ cfg.maxRetries + 1 ∧ (1 ≤ n2 → 1 ≤ n1) ∧ (1 ≤ n3 → 1 ≤ n2) ∧ (1 ≤ n4 → 1 ≤ n3) ∧
-      kinds (establish md5 P cfg p0 c0).sent =
+      kinds (handshake md5 P cfg p0 c0).sent =
         [.ping] ++ List.replicate n1 .authCap ++ List.replicate n2 .challenge ++ List.replicate n3 .activate ++
           List.replicate n4 .setPriv ∧
-      ((establish md5 P cfg p0 c0).outcome.isOk = true → 1 ≤ n4 ∧ (establish md5 P cfg p0 c0).outcome = .ok []) := by
+      ((handshake md5 P cfg p0 c0).outcome.isOk = true → 1 ≤ n4 ∧ (handshake md5 P cfg p0 c0).outcome = .ok []) := by
   have hd : pingDatagram rmcpInitialSeq = .ok [6, 0, 255, 6, 0, 0, 0x11, 0xbe, 0x80, 0, 0, 0] := by decide
   have hp : ∃ p1 o, ping P p0 = (p1, [[6, 0, 255, 6, 0, 0, 0x11, 0xbe, 0x80, 0, 0, 0]], o) := by
     simp only [ping, hd]
     exact ⟨_, _, rfl⟩
   obtain ⟨p1, o, hp⟩ := hp
-  simp only [establish, hp]
+  simp only [handshake, hp]
   cases o with
   | ok u =>
     simp only
